@@ -268,7 +268,7 @@ def gen_file(rng, codec):
     kind = rng.choice(["plain"] * 10 + ["sample"] * 3 + ["truncated", "cut-at-page", "junk-behind", "junk-middle", "lacing-too-big",
                                                       "seq-gap", "never-completes", "two-comments", "no-comment", "empty-page",
                                                       "bad-version", "bad-capture", "bad-crc", "same-codec-twice", "same-codec-twice", "chained",
-                                                      "id-not-first", "short-id", "tiny", "seq-off", "comment-first-flag", "foreign-junk-tail",
+                                                      "id-not-first", "short-id", "short-id", "tiny", "seq-off", "seq-max", "comment-first-flag", "foreign-junk-tail",
                                                       "flags-hi"])
     data, lay = gen_plain(rng, codec)
     pages = lay["pages"]
@@ -302,6 +302,17 @@ def gen_file(rng, codec):
         d = rng.choice([1, 2, 1000])
         for p in mine[k:]:
             p["seq"] += d
+        return b"".join(render_page(p) for p in ps), kind, None
+    if kind == "seq-max":
+        # the comment run ends on (or just before) the last page number there is: a run that grows, or pages behind a
+        # run that changes its length, would need a number of 2**32
+        ps = [dict(p) for p in pages]
+        mine = [p for p in ps if p["serial"] == lay["serial"]]
+        _, _, where = stream_packets(mine)
+        run = [p for p, w in zip(mine, where) if 1 in w]
+        top = 0xFFFFFFFF - rng.choice([0, 0, 1, 3])
+        for k, p in enumerate(run):
+            p["seq"] = top - (len(run) - 1 - k)
         return b"".join(render_page(p) for p in ps), kind, None
     if kind == "never-completes":
         # the stream ends inside the comment packet
